@@ -78,6 +78,12 @@ pub fn run() -> i32 {
         let mut rev = x.clone(); rev.reverse();
         jobs.push(("special-env", vec![format!("{} / _,{}", io, x.join(" "))], vec![format!("{} / {} _, _ {}", io, x.join(" "), rev.join(" "))]));
     } }
+    // ... and with an element that has an inside of its own: mirroring X turns `(p t)` into `(t p)`
+    let nested: [(&str, &str); 6] = [("(p t)", "(t p)"), ("(p a,1:2)", "(a p,1:2)"), ("(C V,1:1)", "(V C,1:1)"), ("(t a $)", "($ a t)"), ("(p t,0:2)", "(t p,0:2)"), ("(a (p t))", "((t p) a)")];
+    for io in ["a > i", "C > [+voice]", "V > *"] { for (x, xm) in nested { for extra in ["", "a", "t", "#"] {
+        let (lhs, l_before, l_after) = match extra { "" => (x.to_string(), x.to_string(), xm.to_string()), "#" => (format!("{} #", x), format!("{} #", x), format!("# {}", xm)), e => (format!("{} {}", x, e), format!("{} {}", x, e), format!("{} {}", e, xm)) };
+        jobs.push(("special-env", vec![format!("{} / _,{}", io, lhs)], vec![format!("{} / {} _, _ {}", io, l_before, l_after)]));
+    } } }
     // (d) optionals
     let xopts: Vec<Vec<&str>> = vec![vec!["C"], vec!["V"], vec!["t"], vec!["[]"], vec!["C", "V"], vec!["p", "a"], vec!["$"], vec!["%"]];
     let tails = ["", "t", "a", "#", "$", "V"];
